@@ -213,15 +213,16 @@ structure Item where
   data : Bytes
   deriving DecidableEq, Repr
 
+/-- the common tail of `convert_raw`: skip tombstone entries (`begin >= min_tombstone`), empty and
+inverted ranges (`begin >= end`); the base address is unchanged -/
+def keepRange (s base b e : Nat) (d : Bytes) : Out (Nat × Option Item) :=
+  if minTombstone s ≤ b ∨ e ≤ b then .ok (base, none) else .ok (base, some ⟨b, e, d⟩)
+
 /-- `RngListIter::convert_raw` / `LocListIter::convert_raw`. The iterator state is the running
 base address: returns the new base address and `Some(range)` / `None`. On `Err` the state is
 unchanged (the Rust code assigns `self.base_address` only after a successful lookup). -/
 def convertRaw (c : Cfg) (addr : Bytes) (addrBase : Nat) (base : Nat) (raw : Entry) :
     Out (Nat × Option Item) :=
-  let s := c.addrSize
-  /- the common tail: skip tombstones, empty and inverted ranges -/
-  let fin (b e : Nat) (d : Bytes) : Out (Nat × Option Item) :=
-    if minTombstone s ≤ b ∨ e ≤ b then .ok (base, none) else .ok (base, some ⟨b, e, d⟩)
   match raw with
   | .baseAddress a => .ok (a, none)
   | .baseAddressx i => do
@@ -230,16 +231,22 @@ def convertRaw (c : Cfg) (addr : Bytes) (addrBase : Nat) (base : Nat) (raw : Ent
   | .startxEndx b e d => do
     let b ← getAddress c addr addrBase b
     let e ← getAddress c addr addrBase e
-    fin b e d
+    keepRange c.addrSize base b e d
   | .startxLength b len d => do
     let b ← getAddress c addr addrBase b
-    fin b (wrappingAddSized b len s) d
-  | .defaultLocation d => fin 0 (2 ^ 64 - 1) d
-  | .pair b e d | .offsetPair b e d =>
-    if minTombstone s ≤ base then .ok (base, none)
-    else fin (wrappingAddSized base b s) (wrappingAddSized base e s) d   -- add_base_address
-  | .startEnd b e d => fin b e d
-  | .startLength b len d => fin b (wrappingAddSized b len s) d
+    keepRange c.addrSize base b (wrappingAddSized b len c.addrSize) d
+  | .defaultLocation d => keepRange c.addrSize base 0 (2 ^ 64 - 1) d
+  | .pair b e d =>
+    -- skip entries relative to a tombstone base address, else `add_base_address`
+    if minTombstone c.addrSize ≤ base then .ok (base, none)
+    else keepRange c.addrSize base (wrappingAddSized base b c.addrSize)
+      (wrappingAddSized base e c.addrSize) d
+  | .offsetPair b e d =>
+    if minTombstone c.addrSize ≤ base then .ok (base, none)
+    else keepRange c.addrSize base (wrappingAddSized base b c.addrSize)
+      (wrappingAddSized base e c.addrSize) d
+  | .startEnd b e d => keepRange c.addrSize base b e d
+  | .startLength b len d => keepRange c.addrSize base b (wrappingAddSized b len c.addrSize) d
 
 /-- `{Rng,Loc}ListIter::next` repeated, over the events of the underlying raw iterator: a raw
 error is passed on (the raw iterator then ends); a conversion error is returned and the iteration
